@@ -26,7 +26,8 @@ open RsslVerif.Lemmas.SpecExpand RsslVerif.Lemmas.MacroPaste
 open RsslVerif.Lemmas.MacroTameP RsslVerif.Lemmas.MacroTamePSpec RsslVerif.Lemmas.MacroTamePRun
 
 /-- Tie to the source: the shapes of `preprocess_command`, `apply_single_macro`, `preprocess_initial_file`,
-`Token::is_whitespace`, `compile()` and of every `MacroSearchPosition` the model was written against. -/
+`Token::is_whitespace`, `compile()`, of every `MacroSearchPosition`, of the trimming loops and their uses, and of
+`FileLoader::load` the model was written against. -/
 theorem source_shape :
     definingDirectives = ["define", "undef"] ∧ defineRetainsThenPushes = true ∧ undefRetains = true ∧
     argsShareDisabled = true ∧ initialDefinesUseDefinePath = true ∧
@@ -60,9 +61,17 @@ theorem source_shape :
        "args.len() as u64 != macro_def.num_params"] ∧
     -- the nesting limit of #include: `includeFile` with fuel `maxIncludeDepth` answers `Err.includeFuel` exactly
     -- where the code answers `IncludeDepthExceeded` (the driver runs the model with this fuel)
-    maxIncludeDepth = 200 ∧ includeDepthCheckedBeforeLoad = true := by
+    maxIncludeDepth = 200 ∧ includeDepthCheckedBeforeLoad = true ∧
+    -- what identifies a file (fix d66a6d7; `includeFile`: the once-set is keyed by the real name the handler reports)
+    fileIdentity =
+      ["self.file_name_remap.get(file_name)", "self.include_handler.load(file_name, parent_name)",
+       "self.real_name_remap.get(&file_data.real_name)", "self.real_name_remap.insert(real_name, id)",
+       "self.file_name_remap.insert(file_name.to_string(), id)", "self.pragma_once_files.contains(&id)",
+       "self.source_manager.get_contents(id)", "self.pragma_once_files.insert(file_id)"] ∧
+    -- fix 3c81ed5 (`initialMacros`: `hasLineBreak`)
+    apiDefineLineBreakRejected = true := by
   refine ⟨by decide, by decide, by decide, by decide, by decide, by decide, by decide, ?_, by decide, by decide,
-    by decide, by decide, by decide, by decide, by decide, by decide⟩
+    by decide, by decide, by decide, by decide, by decide, by decide, by decide, by decide⟩
   intro t; cases t <;> decide
 
 /-! ## Termination -/
